@@ -167,3 +167,12 @@ Proof. exact x_workers_at_least_one. Qed.
 Print Assumptions C06_src_workers_at_least_one.
 Print Assumptions C06_src_pin_parblock_dispatch_worker.
 Print Assumptions C06_src_pin_parfile_copy_worker.
+
+(* ---- nothing is carried from one file of a run to the next: the inventory of process-wide state (statics,
+   thread-locals, umask calls) of the current source, regenerated by the translator on every run ---- *)
+From XcpProofs Require Import XState.
+From Coq Require Import String.
+Theorem C06_src_no_state_carried_between_files :
+  x_static_items = ["libxcp/src/backup.rs::BAK_REGEX"%string] /\ x_thread_locals = [] /\ x_umask_calls = 0%N.
+Proof. exact x_process_wide_state_ok. Qed.
+Print Assumptions C06_src_no_state_carried_between_files.
